@@ -57,10 +57,20 @@ func c07histKey(h []uint64) string {
 
 // runHistory feeds correctly signed frames with the given timestamps to one keyed reader and
 // compares every accept / refuse decision with the model.
+const c07forged = uint64(1) << 63 // history entries with this bit carry a wrong signature: they must be refused and must not move the window
+
 func c07runHistory(rep *vh.Report, keyRaw []byte, key *frame.V2Key, hist []uint64, frames map[uint64][]byte) {
 	rep.Eval(1)
 	var stream []byte
-	for _, ts := range hist {
+	for _, ent := range hist {
+		ts := ent &^ c07forged
+		if ent&c07forged != 0 {
+			s := &ref.FrameSpec{Version: 2, Incompat: 1, Signed: true, Seq: byte(ts), Sys: 1, Comp: 1, MsgID: 0x54321, LinkID: 1, Payload: []byte{1, 2, 3, 4}, Timestamp: ts}
+			s.Signature = ref.SignatureOfWire(keyRaw, ref.Serialize(s))
+			s.Signature[int(ts%6)] ^= 0x20
+			stream = append(stream, ref.Serialize(s)...)
+			continue
+		}
 		w, ok := frames[ts]
 		if !ok {
 			s := &ref.FrameSpec{Version: 2, Incompat: 1, Signed: true, Seq: byte(ts), Sys: 1, Comp: 1, MsgID: 0x12345 ^ uint32(ts&0xFF), LinkID: byte(ts >> 3),
@@ -77,7 +87,20 @@ func c07runHistory(rep *vh.Report, keyRaw []byte, key *frame.V2Key, hist []uint6
 		rd := &frame.Reader{ByteReader: bytes.NewReader(stream), InKey: key}
 		_ = rd.Initialize()
 		var m c07model
-		for i, ts := range hist {
+		for i, ent := range hist {
+			ts := ent &^ c07forged
+			if ent&c07forged != 0 {
+				fr, err := rd.Read()
+				if err == nil {
+					rep.Violation("what=reader forged-accepted", "a frame with a wrong signature was delivered", fmt.Sprintf("%+v", fr))
+					return
+				}
+				if _, ok := err.(frame.ReadError); !ok {
+					rep.Violation("what=reader hist="+c07histKey(hist[:i+1]), "unexpected error class: "+err.Error(), hist)
+					return
+				}
+				continue
+			}
 			want := m.step(ts)
 			fr, err := rd.Read()
 			if err == io.EOF {
@@ -105,7 +128,13 @@ func c07runHistory(rep *vh.Report, keyRaw []byte, key *frame.V2Key, hist []uint6
 					verdict = "accepted a frame more than 10 s older than the newest accepted one"
 				}
 				key := c07histKey(hist[:i+1])
-				if len(hist) > 6 {
+				forgedBefore := false
+				for _, e := range hist[:i] {
+					forgedBefore = forgedBefore || e&c07forged != 0
+				}
+				if forgedBefore && len(hist) > 6 {
+					key = "random after-forged-frame"
+				} else if len(hist) > 6 {
 					// long random histories: fingerprint by the deciding pair (newest, t) relation instead of the whole history
 					rel := "older"
 					if ts+c07window >= m.newest {
@@ -125,7 +154,7 @@ func TestC07(t *testing.T) {
 	rep := vh.NewReport("C07")
 	defer rep.Finish(t)
 	rep.Rule("reader: bounded-exhaustive histories of correctly signed frames over the boundary alphabet {0,1,5,999999,1000000,1000001,1999999,2000000,2000001,2^32,2^48-1000001,2^48-1} " +
-		"to depth D on fresh readers, plus random histories of length 50..500 with steps drawn relative to the current maximum (+-1, +-(10^6-1), +-10^6, +-(10^6+1), far); every accept/refuse " +
+		"and two frames with a wrong signature (which must be refused and must leave the window untouched) to depth D on fresh readers, plus random histories (with forged future-dated frames injected) of length 50..500 with steps drawn relative to the current maximum (+-1, +-(10^6-1), +-10^6, +-(10^6+1), far); every accept/refuse " +
 		"decision compared with a sequential window model. writers: signed write histories on streamwriter.Writer, frame.Writer.WriteMessage and Node channels; every timestamp inside " +
 		"[ticks(before call), ticks(after call)] by the harness clock and non-decreasing per link. distinct = distinct histories")
 	rep.Assume("wall clock is not stepped backwards during the run (not injected: the two clauses of the statement would contradict each other)")
@@ -135,7 +164,8 @@ func TestC07(t *testing.T) {
 	key := frame.NewV2Key(keyRaw)
 	frames := map[uint64][]byte{}
 
-	alpha := []uint64{0, 1, 5, 999999, 1000000, 1000001, 1999999, 2000000, 2000001, 1 << 32, (1 << 48) - 1000001, (1 << 48) - 1}
+	alpha := []uint64{0, 1, 5, 999999, 1000000, 1000001, 1999999, 2000000, 2000001, 1 << 32, (1 << 48) - 1000001, (1 << 48) - 1,
+		3000001 | c07forged, (1 << 47) | c07forged} // two frames with a wrong signature: refused, no effect on the window
 	depth := vh.Pick(4, 5)
 	// exhaustive histories of every length 1..depth
 	total := 0
@@ -204,6 +234,18 @@ func TestC07(t *testing.T) {
 			}
 			if r.Chance(1, 40) {
 				t = r.U64() & max48
+			}
+			if i%2 == 1 && r.Chance(1, 12) {
+				// a frame nobody holding the key signed, dated far ahead (or anywhere): refused, and without any effect on the window
+				ft := t + uint64(r.Intn(50*c07window))
+				if r.Chance(1, 3) {
+					ft = r.U64() & max48
+				}
+				if ft > max48 {
+					ft = max48
+				}
+				h = append(h, ft|c07forged)
+				rep.Count("forged_frames_in_histories", 1)
 			}
 			h = append(h, t)
 			m.step(t)
